@@ -6,7 +6,6 @@ rationals; (3) an independent geometric oracle on every layout the
 implementation returns; (4) a smoke *test* of both drawing back-ends; (5) the
 diagramize / nx2diagram round trip for planar-order bodies."""
 import json
-import os
 import random
 import tempfile
 import time
@@ -280,6 +279,9 @@ CORPUS = [
     [2, 1, [[2, 1]], [0]], [1, 2, [[1, 2]], [0]], [2, 2, [[1, 2], [2, 1]], [0, 1]],
     [2, 2, [[2, 1], [1, 2]], [0, 0]], [3, 1, [[2, 1], [2, 1]], [0, 0]], [3, 1, [[2, 1], [2, 1]], [1, 0]],
     [4, 1, [[2, 1], [2, 1], [2, 1]], [0, 1, 0]], [1, 4, [[1, 2], [1, 2], [1, 2]], [0, 1, 0]],
+    # proper fractions: box x = 9/4, 3/4, 1/4, 13/4 (LayoutLemmas.ex_positions, the
+    # non-vacuity example of the Coq development)
+    [3, 1, [[2, 1], [0, 2], [3, 0], [0, 0]], [1, 1, 0, 1]],
     # malformed
     [2, 1, [[2, 1]], [1]], [2, 1, [[2, 1]], [-1]], [2, 1, [[2, 1]], []], [2, 1, [[2, 1]], [0, 0]],
     [2, 2, [[2, 1]], [0]], [2, 0, [[2, 1]], [0]], [1, 1, [[2, 1]], [0]], [0, 1, [], []],
@@ -442,7 +444,8 @@ def smoke(rep, di, directory, index, p, d, state):
     except Exception as exc:   # noqa: any exception of a back-end is a failure
         rep.violation("drawing back-end raised %s on a diagram with a wire or a box"
                       % type(exc).__name__,
-                      {"program": p, "exception": "%s: %s" % (type(exc).__name__, exc),
+                      {"program": p, "stage": "back-ends",
+                       "exception": "%s: %s" % (type(exc).__name__, exc),
                        "replay": snippet_render(p)})
         state["failed"] += 1
         return
@@ -466,13 +469,14 @@ def smoke(rep, di, directory, index, p, d, state):
         problem = "TikZ output is not a tikzpicture"
     if problem:
         state["failed"] += 1
-        rep.violation(problem, {"program": p, "replay": snippet_render(p)})
+        rep.violation(problem, {"program": p, "stage": "back-ends", "problem": problem,
+                                "replay": snippet_render(p)})
 
 
 def snippet_render(program):
     return ("cd /tmp && MPLBACKEND=Agg PYTHONPATH=/verif/harness:%s /venv/bin/python -B -c "
-            "\"import draw_impl as di, tempfile; t = tempfile.mkdtemp(); "
-            "print(di.render(di.build(%s), t, 'd'))\"" % (common.REPO, json.dumps(program)))
+            "\"import draw_impl as di, tempfile; t = tempfile.TemporaryDirectory(); "
+            "print(di.render(di.build(%s), t.name, 'd'))\"" % (common.REPO, json.dumps(program)))
 
 
 def round_trips(rep, di, p, d, always_offset):
@@ -484,7 +488,8 @@ def round_trips(rep, di, p, d, always_offset):
         except Exception as exc:   # noqa
             rep.count("roundtrip:%s:raised:%s" % (what, type(exc).__name__))
             rep.violation("%s raised %s on a planar-order body" % (what, type(exc).__name__),
-                          {"program": p, "exception": "%s: %s" % (type(exc).__name__, exc),
+                          {"program": p, "stage": what,
+                           "exception": "%s: %s" % (type(exc).__name__, exc),
                            "always_offset": always_offset, "replay": snippet(p)})
             continue
         if di.same_diagram(back, d):
@@ -492,7 +497,7 @@ def round_trips(rep, di, p, d, always_offset):
         else:
             rep.count("roundtrip:%s:different" % what)
             rep.violation("%s of a planar-order body yields a different wiring" % what,
-                          {"program": p, "expected": repr(d), "got": repr(back),
+                          {"program": p, "stage": what, "expected": repr(d), "got": repr(back),
                            "always_offset": always_offset, "replay": snippet(p)})
 
 
@@ -500,10 +505,7 @@ def round_trips(rep, di, p, d, always_offset):
 def run(tier, seed):
     import draw_impl as di
     rep = Report("C20", tier, seed)
-    if os.environ.get("C20_SKIP_PROOF"):          # TEMPORARY (development only)
-        proof_ok = True
-    else:
-        proof_ok = common.proof_stage(rep, "C20")
+    proof_ok = common.proof_stage(rep, "C20")
     rng = random.Random(seed)
     quick = tier == "quick"
     cases = generate(tier, rng)
@@ -578,7 +580,8 @@ def run(tier, seed):
                 rep.count("ports-closer-than-1-to-a-neighbour", stats["weak_only"])
             if bad:
                 rep.violation("layout is not a faithful planar embedding: " + bad[0],
-                              {"program": p, "failures": bad[:10], "replay": snippet(p)})
+                              {"program": p, "stage": "oracle", "failures": bad[:10],
+                               "replay": snippet(p)})
             # ---- back-end smoke test (a test, not a proof)
             empty = not d.dom and not d.boxes
             if empty:
